@@ -14,7 +14,7 @@ import (
 	"github.com/jmeaster30/vore/libvore/files"
 )
 
-const cliPath = "/verif/bin/vore-cli"
+var cliPath = verifRoot + "/bin/vore-cli"
 
 func init() {
 	register(&Check{
